@@ -56,6 +56,11 @@ def check_differential(run, case, fronts):
         a, b = results[ref], results[f]
         special = (regs_by_front[ref] ^ regs_by_front[f]) & {'twisted-listen-only-is-permanent'}
         lossy = (regs_by_front[ref] | regs_by_front[f]) & set(SH.LOSSY)
+        if case.get('inserts') and a['dump'] == b['dump']:
+            # bytes the framer cannot frame lie between the requests (recorded receive-path findings: what the front-ends write and
+            # whether they close differs already); what has to agree is the effect on the datastore
+            run.count('store_only_comparisons')
+            continue
         if a['out'] != b['out'] or a['dump'] != b['dump']:
             what = 'output' if a['out'] != b['out'] else 'final store'
             text = '%s and %s differ in %s: %s vs %s' % (ref, f, what, a['out'].hex()[:80], b['out'].hex()[:80])
@@ -75,7 +80,7 @@ def check_differential(run, case, fronts):
             else:
                 kinds['front-ends-differ:%s-vs-%s' % (ref, f)] = text
     # against the model, in the clean region of the reference front-end
-    if not regs_by_front[ref]:
+    if not regs_by_front[ref] and not case.get('inserts'):
         run.count('clean_region_cases')
         ex = results[ref]['ex']
         problems, matched = SH.match(case['framing'], ex['exp'], ex['out_frames'])
@@ -262,6 +267,24 @@ def run(run):
                      sample={'kind': 'differential', 'framing': framing, 'fronts': STREAM_FRONTS, 'single': case['layout']['single'], 'hosted': sorted(case['layout']['units']),
                              'reads': [[(u, m['fc']) for u, t, m in rd] for rd in case['reads']][:5], 'verdict': 'identical' if ok else 'differs'},
                      sample_class=('diff-stream', framing))
+    # a non-zero MBAP protocol identifier (the socket framer accepts it), and fragments the framer cannot frame between whole
+    # requests: no model here, only "the TCP front-ends do the same" (bytes, closing or not, final store)
+    for i in range(run.scale(60, 6000)):
+        case = gen_case(r, 'tcp', uniq, per_read=1)
+        tcp_fronts = ['sync-tcp', 'aio-tcp', 'tw-tcp']
+        if i % 2:
+            case['pid'] = r.choice([1, 0xBEEF, 0x0100, 0xFFFF])
+            label = 'protocol-id'
+        else:
+            k = r.randrange(1, max(2, len(case['reads'])))
+            frag = bytes(r.randrange(256) for _ in range(r.randint(1, 7)))
+            case['inserts'] = [[k, frag.hex()]]
+            label = 'fragment'
+        ok = check_differential(run, case, tcp_fronts)
+        run.count('differential_%s_cases' % label)
+        run.case(h64(('diff-' + label, repr(case))), True,
+                 sample={'kind': 'differential', 'class': label, 'fronts': tcp_fronts, 'pid': case.get('pid'), 'inserts': case.get('inserts'), 'verdict': 'identical' if ok else 'differs'},
+                 sample_class=('diff-' + label,))
     for i in range(n):
         case = gen_case(r, 'tcp', uniq, per_read=1 if i % 3 else 2)
         case['flags']['broadcast_enable'] = bool(i % 4 == 0)
